@@ -433,9 +433,36 @@ func init() {
 		},
 	})
 
+	eng.Register(&eng.Scenario{
+		Name: "keyed-ctx-race", Props: []string{"C07"}, ObsNames: stdObs, MustFinish: true,
+		Doc:   "Keyed with key a running: T1 = SetContext(fresh,true)  ||  T2 = ClearContext  ||  T3 = RestartRoutine(a); ResetAllRoutines: key a never executes twice at once; after a final ClearContext nothing of it is live",
+		Quick: eng.Bounds{PB: 2, Delay: true}, Thorough: eng.Bounds{PB: 3, Delay: true},
+		Body: func() {
+			k := newKeyed(always(iUntilCancelled), false, false)
+			k.SetContext(bg, false)
+			k.SetKey("a", true)
+			T("T1", func() { k.SetContext(context.WithValue(bg, ctxKey{}, 1), true) })
+			T("T2", func() { k.ClearContext() })
+			T("T3", func() { k.RestartRoutine("a"); k.ResetAllRoutines() })
+			vsched.Settle()
+			if l := liveKeyed(0); l > 1 {
+				fail("C07.two-live", "%d instances of key a with a live context at quiescence", l)
+			}
+			k.ClearContext()
+			vsched.CtrSet(kRemovedA, 1)
+			if l := liveKeyed(0); l != 0 {
+				fail("C07.not-cancelled", "%d instance(s) still have a live context after ClearContext returned", l)
+			}
+			vsched.Settle()
+			if vsched.Ctr(kActiveA) != 0 {
+				fail("C07.not-cancelled", "instances still executing at quiescence after ClearContext")
+			}
+		},
+	})
+
 	// K2: removal
 	eng.Register(&eng.Scenario{
-		Name: "keyed-removal", Props: []string{"C07"}, ObsNames: stdObs,
+		Name: "keyed-removal", Props: []string{"C07", "C06"}, ObsNames: stdObs,
 		Doc:   "Keyed with/without release delay (choice) and retry back-off: key a running or failed (retry timer pending); optionally (with a delay) RemoveKey(a) followed by a re-request through SetKey / SyncKeys; then one of {RemoveKey(a), ClearContext, SyncKeys([])}; timers fire freely; afterwards (and after the removal timer ran) the instance is cancelled and nothing for key a starts again",
 		Quick: eng.Bounds{PB: 2}, Thorough: eng.Bounds{PB: 3},
 		Body: func() {
@@ -490,6 +517,7 @@ func init() {
 			if how != 1 {
 				if _, ok := k.GetKey("a"); ok {
 					fail("C07.not-removed", "key a still present at quiescence after its removal (delay=%v failing=%v)", delay, failing)
+					fail("C06.keyset", "key a was removed and never requested again, every timer has fired, but GetKey still reports it (delay=%v, routine failing with retry=%v)", delay, failing)
 				}
 			}
 			if l := liveKeyed(0); l != 0 {
